@@ -186,3 +186,13 @@ func copyBuf(b []byte) []byte {
 	copy(bx, b)
 	return bx
 }
+
+// checkDecompressedLength compares what a decompressor produced with the uncompressed size of the (checksummed) record
+// header. Not every compression format carries its own length or checksum: a damaged stream can decode without an error
+// into something shorter or longer.
+func checkDecompressedLength(decompressedLen int, payloadSizeUncompressed uint64) error {
+	if uint64(decompressedLen) != payloadSizeUncompressed {
+		return fmt.Errorf("decompressed record has %d bytes, but its header says %d", decompressedLen, payloadSizeUncompressed)
+	}
+	return nil
+}
